@@ -140,6 +140,8 @@ func (s *regSys) enabledAll() []Op {
 				ops = append(ops, Op{K: "Resume", H: h, Off: "zero"}, Op{K: "Resume", H: h, Off: "-1"}, Op{K: "Write", H: h, Piece: "ZZ"})
 				if up.State == "committed" {
 					ops = append(ops, Op{K: "Cancel", H: h})
+					// a retried final request: the digest of the first commit again, whatever the session holds by now
+					ops = append(ops, Op{K: "Commit", H: h, Off: "recommit"}, Op{K: "Resume", H: h, Off: "size"})
 				}
 			}
 		}
@@ -254,9 +256,17 @@ func (s *regSys) exec(op Op) (out Outcome) {
 		if op.Off == "explicit" {
 			dig = sha256Digest([]byte(op.Piece))
 		}
+		if op.Off == "recommit" {
+			dig = sha256Digest(s.model.Uploads[op.H].Committed)
+		}
 		return outcomeOf(h.Commit(dig))
 	case "Cancel":
 		return outcomeOf(ociregistry.Descriptor{}, s.handles[op.H].Cancel())
+	case "Reads":
+		for _, q := range s.queries {
+			runQuery(ctx, s.reg, q)
+		}
+		return Outcome{OK: true}
 	}
 	panic("exec: unknown op " + op.K)
 }
@@ -390,7 +400,7 @@ func sameObject(a ociregistry.Interface, raw any) bool {
 
 func c02Alphabet(u *universe, tier string, chunked bool) alphabetConfig {
 	c := alphabetConfig{Repos: u.Repos, BadRepo: true, Chunked: chunked, MaxUploads: 1, MaxUpload: 3,
-		Manifests: []int{0, 1, 2, 3, 4, 5, 6, 7, 8, 9, 10}, Blobs: []int{0, 1, 2}, Deletes: true, Mounts: true, BadPushes: true, UntaggedToo: true, FinishedOps: true, ExplicitIDs: true, AltBlobMT: true}
+		Manifests: []int{0, 1, 2, 3, 4, 5, 6, 7, 8, 9, 10, 11}, Blobs: []int{0, 1, 2}, Deletes: true, Mounts: true, BadPushes: true, UntaggedToo: true, FinishedOps: true, ExplicitIDs: true, AltBlobMT: true, ReadsOp: true}
 	return c
 }
 
